@@ -573,6 +573,7 @@ type mutexState struct {
 	writer  *thread
 	readers int
 	locked  bool
+	waitW   int // writers blocked in Lock: Go's RWMutex lets no NEW reader in while a writer waits
 }
 
 type wgState struct{ n int64 }
@@ -598,7 +599,11 @@ func ptrArg(v value) *value {
 func mutexLock(p *value, what string) {
 	m := R.mutex(p)
 	schedPoint(what)
-	blockUntil(func() bool { return !m.locked && m.readers == 0 }, what)
+	if m.locked || m.readers > 0 {
+		m.waitW++
+		blockUntil(func() bool { return !m.locked && m.readers == 0 }, what)
+		m.waitW--
+	}
 	m.locked = true
 	m.writer = R.cur
 	R.raceAcquire(m)
@@ -621,7 +626,9 @@ func mutexUnlock(p *value, what string) {
 func mutexRLock(p *value, what string) {
 	m := R.mutex(p)
 	schedPoint(what)
-	blockUntil(func() bool { return !m.locked }, what)
+	// a blocked Lock call excludes new readers (sync.RWMutex documentation): a second RLock
+	// by a goroutine that already holds one deadlocks when a writer arrived in between
+	blockUntil(func() bool { return !m.locked && m.waitW == 0 }, what)
 	m.readers++
 	R.raceAcquire(m)
 }
